@@ -145,7 +145,23 @@ func (ex *Exec) applyContract(fr *Frame, fn *ssa.Function, ct *Contract, args []
 	if !ct.Pure {
 		if eff.world && ctx != nil {
 			w := st.worlds[ctx.World]
-			st.worlds[ctx.World] = &World{S: Fresh("S_after_"+fn.Name(), SStore), X: Fresh("X_after_"+fn.Name(), SXState), E: Fresh("E_after_"+fn.Name(), w.E.Sort)}
+			neu := &World{S: Fresh("S_after_"+fn.Name(), SStore), X: Fresh("X_after_"+fn.Name(), SXState), E: Fresh("E_after_"+fn.Name(), w.E.Sort)}
+			// inferred modifies clause: the key families (and dependency effects) the callee's current body can write
+			rec := ex.discover(func() {
+				st2 := pre.Clone()
+				saveStack := ex.callStack
+				ex.runFunc(fn, args, nil, st2, nil)
+				ex.callStack = saveStack
+			})
+			ws := rec.byWorld[ctx.World]
+			if rec.byWorld[-1] != nil {
+				ws = rec.byWorld[-1]
+			}
+			if ws == nil {
+				ws = &WriteSet{fams: map[int]bool{}}
+			}
+			ex.frameFor(st, w, neu, ws)
+			st.worlds[ctx.World] = neu
 		}
 		if eff.ptrArgs {
 			for _, a := range args {
